@@ -111,7 +111,8 @@ STRS = ["'a'", "''", "'a''b'", "'a\\'b'", "'--x'", "'/*'", "'a;b'", "\"q\"", "\"
 NAMES = ["`a`", "`a b`", "`a.b`", "`select`", "`--`", "`x;y`", "``"]
 HEXBIT = ["x'1F'", "X'0a'", "x\"ff\"", "b'01'", "B'1'", "b\"10\"", "0x1F", "0b01", "x''", "b''"]
 OPS = ["<=>", "<=", ">=", "<>", "!=", "<<", ">>", "&&", "||", "=", "<", ">", "+", "-", "*", "/", "%", "^", "~", "!", "&", "|", ",", ";", "."]
-COMMENTS = ["# c\n", "-- c\n", "/* c */", "/**/", "/* * */", "/*a*b*/", "#\n", "--\n", "-- x", "# y"]
+COMMENTS = ["# c\n", "-- c\n", "/* c */", "/**/", "/* * */", "/*a*b*/", "#\n", "--\n", "-- x", "# y",
+            "/***/", "/****/", "/*****/", "/** d **/", "/* x **/", "/*** c ***/", "/* a * / b */", "/*/*/", "/* -- */", "/* # */", "--/* x\n", "#*/\n"]
 BLANKS = [" ", "\n", "  ", " \n ", "\t", "\r\n", "　", ""]
 PLACEHOLDERS = ["#{x}", "#{a.b}", "#{ p }", "#{}"]
 
